@@ -39,6 +39,13 @@ JudgeAdd(e) ==
            ELSE IF e.raised # "" THEN None
            ELSE JudgePost(e.pre, e.post, <<1, 1, 1, 1>>, InsertAt(T, i, e.t), st.D, st.set, st.r)
                 \o (IF e.res # i THEN V("C06.PerTreeListsAligned", "returned-index") ELSE None))
+\* read_from_files / read: srcs[h] = ids of the trees source h holds, in order; the first e.offset of each are burn-in
+JudgeRead(e) ==
+    LET g == st.G[e.from]  k == e.k
+        add == Flatten([h \in 1..Len(e.srcs) |-> Kept(e.srcs[h], e.offset)])
+    IN Chain(g, k, e.pre) \o Others(e, g)
+       \o (IF e.raised # "" THEN V("C06.ReadNeverFailsOnUniformSample", e.route \o ":" \o e.raised)
+           ELSE JudgePost(e.pre, e.post, <<Len(add), Len(add), Len(add), Len(add)>>, g.T[k] \o add, st.D, st.set, st.r))
 MergeActions == {"Update", "Extend", "IAdd", "Add"}
 JudgeMerge(e) ==
     LET g == st.G[e.from]  k == e.k  j == e.j  T == g.T[k] \o g.T[j] IN
@@ -60,16 +67,21 @@ JudgeSetup(e) ==
 
 Judge(e) == CASE e.action = "Setup" -> JudgeSetup(e)
               [] e.action = "AddTree" -> Link(e) \o (IF Link(e) = None THEN JudgeAdd(e) ELSE None)
+              [] e.action = "Read" -> Link(e) \o (IF Link(e) = None THEN JudgeRead(e) ELSE None)
               [] e.action \in MergeActions -> Link(e) \o (IF Link(e) = None THEN JudgeMerge(e) ELSE None)
               [] e.action = "Query" -> IF e.from \in 1..Len(st.G) THEN JudgeQuery(e) ELSE V("C06.Machinery", "state ids out of sequence")
 
 NextSt(e) ==
     CASE e.action = "Setup" ->
-           [D |-> [i \in 1..Len(e.trees) |-> Descr(e.trees[i], e.w[i])], set |-> e.set, r |-> e.r, ref |-> e.ref,
+           [D |-> [i \in 1..Len(e.trees) |-> Descr(e.trees[i], e.w[i], NoTipAges)], set |-> e.set, r |-> e.r, ref |-> e.ref,
             G |-> <<[T |-> [k \in 1..Len(e.arrs) |-> <<>>], dig |-> [k \in 1..Len(e.arrs) |-> Digest(e.arrs[k])]]>>]
       [] e.action = "AddTree" /\ Link(e) = None ->
            LET g == st.G[e.from] IN
            [st EXCEPT !.G = Append(@, [g EXCEPT !.T[e.k] = IF e.raised = "" THEN InsertAt(@, IF e.i < 0 THEN Len(@) ELSE e.i, e.t) ELSE @,
+                                                !.dig = [ResyncOthers(e, @) EXCEPT ![e.k] = Digest(e.post)]])]
+      [] e.action = "Read" /\ Link(e) = None ->
+           LET g == st.G[e.from] IN
+           [st EXCEPT !.G = Append(@, [g EXCEPT !.T[e.k] = IF e.raised = "" THEN @ \o Flatten([h \in 1..Len(e.srcs) |-> Kept(e.srcs[h], e.offset)]) ELSE @,
                                                 !.dig = [ResyncOthers(e, @) EXCEPT ![e.k] = Digest(e.post)]])]
       [] e.action \in MergeActions /\ Link(e) = None ->
            LET g == st.G[e.from] IN
